@@ -28,3 +28,6 @@ _E2 = 'Trusted: CPython; the verification grammar of DESIGN 3 (vlib/grammar.py) 
 add('C06', 'exploration', 'deviation-bounded exhaustive enumeration of grammar derivations x comment placements x layout option sets',
     'Every case within d deviations (derivation alternative, comment of 8 kinds in any gap, literal/name spelling, uniform respelling style, gap toggle) of 40 seed derivations, crossed with every layout option set within k option deviations (thorough: the full 776-set layout product per seed), is formatted by the real code; the significant-token signature and statement count of the output are compared with the input. Exhaustive within d/k.',
     _E2, 'DESIGN.md 4/C06')
+add('C08', 'exploration', 'deviation-bounded exhaustive enumeration of grammar derivations x comment placements x targeted option sets against a reference transformer',
+    'Every case within d deviations of 40 seed derivations (derivation alternative, comment of 12 kinds in any gap or at a statement edge, literal/name spelling, uniform style) crossed with strip_comments / keyword_case / identifier_case / truncate_strings alone, in pairs and with layout options; the expected token signature is computed from the input by a reference transformer and compared with the re-lexed output; idempotence on exact text. Exhaustive within d.',
+    _E2, 'DESIGN.md 4/C08')
